@@ -55,10 +55,6 @@ inductive Out (α : Type) where
   | miss (what : String)
   deriving Repr
 
-/-- `str::is_char_boundary` on valid UTF-8. -/
-def isBoundary (text : Bytes) (i : Nat) : Bool :=
-  i == 0 || i == text.length || (i < text.length && (text.getD i 0 &&& 0xC0) != 0x80)
-
 /-- `&text[a..b]` for a `str`: panics outside bounds or off a character boundary. -/
 def strSlice (text : Bytes) (a b : Nat) : Res Bytes :=
   if a ≤ b ∧ b ≤ text.length ∧ isBoundary text a ∧ isBoundary text b then .ok (slice text a b)
